@@ -110,6 +110,8 @@ type Unit struct {
 	notes      map[string]bool
 	uncontractedCalls map[string]bool
 	addrMaps          map[string]bool // field maps that hold the address of a struct field somewhere
+	lockedInvs        map[string]bool // lock invariants ("Type.mutex") whose mutex this unit acquires somewhere
+	pendingLock       []pendingLockObl
 	externsUsed  map[string]bool
 	rawSorts     map[string]Sort
 	freeVarPtrs  map[string]freeVarInfo
@@ -133,7 +135,7 @@ func (u *Unit) note(s string) { u.notes[s] = true }
 func (p *Program) NewUnit(fn *ssa.Function, c *Contract) *Unit {
 	u := &Unit{prog: p, fn: fn, contract: c, ctx: NewCtx(), counters: map[string]int{}, mapSorts: map[string]Sort{},
 		entryVals: map[string]Val{}, paramTypes: map[string]types.Type{}, notes: map[string]bool{},
-		uncontractedCalls: map[string]bool{}, addrMaps: map[string]bool{}, subOrigins: map[string]subOrigin{}, rawSorts: map[string]Sort{}, freeVarPtrs: map[string]freeVarInfo{}, externsUsed: map[string]bool{}, specFnsDone: map[string]bool{}, checks: map[string]bool{}}
+		uncontractedCalls: map[string]bool{}, addrMaps: map[string]bool{}, lockedInvs: map[string]bool{}, subOrigins: map[string]subOrigin{}, rawSorts: map[string]Sort{}, freeVarPtrs: map[string]freeVarInfo{}, externsUsed: map[string]bool{}, specFnsDone: map[string]bool{}, checks: map[string]bool{}}
 	if fn != nil {
 		u.name = funcKey(fn)
 		if fn.Pkg != nil {
@@ -637,6 +639,21 @@ func (u *Unit) mergeStates(ins []incoming) *State {
 		conds[i] = u.ctx.Define("g", And(x.st.guard, x.cond))
 	}
 	out := &State{cells: map[*ssa.Alloc]Val{}, heap: map[string]*Term{}, defers: map[int][]deferred{}, edges: map[*ssa.BasicBlock]*Term{}}
+	// a lock is held after the join only if it is held on every incoming path
+	for k := range ins[0].st.held {
+		all := true
+		for _, x := range ins[1:] {
+			if x.st.held[k] == nil {
+				all = false
+			}
+		}
+		if all {
+			if out.held == nil {
+				out.held = map[string]*Term{}
+			}
+			out.held[k] = ins[0].st.held[k]
+		}
+	}
 	out.pc = u.ctx.Define("pc", Or(pcs...))
 	out.guard = u.ctx.Define("g", Or(conds...))
 	for i, x := range ins {
@@ -1046,4 +1063,50 @@ func (p *Program) callersOf(from *ssa.Function, name string) []*ssa.Function {
 		}
 	}
 	return out
+}
+
+// pendingLockObl: "this access to a lock-protected field happens with the lock
+// held"; generated only for units that take that lock themselves (a unit that
+// never locks is either a constructor or is called with the lock held).
+type pendingLockObl struct {
+	inv string
+	obl *Obligation
+}
+
+// checkLockHeld is called for every load/store of a struct field by the code.
+func (u *Unit) checkLockHeld(st *State, a *AddrVal, pos token.Pos, what string) {
+	for _, li := range u.prog.specs.LockInvs {
+		for _, f := range li.Fields {
+			if a.Map != "F!"+li.TypeName+"."+f {
+				continue
+			}
+			if st.held[a.Ptr.S+"|"+li.Mutex] != nil {
+				return
+			}
+			// the same object reached through another load: decided by the solver
+			var same []*Term
+			for k, base := range st.held {
+				if strings.HasSuffix(k, "|"+li.Mutex) && base.Sort == a.Ptr.Sort {
+					same = append(same, Eq(a.Ptr, base))
+				}
+			}
+			goal := False
+			if len(same) > 0 {
+				goal = Or(same...)
+			}
+			// objects allocated by this activation and not yet shared need no lock
+			for _, lo := range st.locals {
+				if lo.ptr.S == a.Ptr.S {
+					return
+				}
+			}
+			u.counters["lockinv/held"]++
+			name := fmt.Sprintf("lockinv/held#%d", u.counters["lockinv/held"])
+			pc := u.ctx.Define("pc", st.pc)
+			o := &Obligation{Name: name, Kind: "lockinv/held", Unit: u.name, Pos: u.posString(pos),
+				Desc: what + " of " + shortName(li.TypeName) + "." + f + " (protected by " + li.Mutex + ") happens with the lock held", Hyp: pc, Goal: goal, Mark: u.ctx.Mark(), ctx: u.ctx, unit: u}
+			u.pendingLock = append(u.pendingLock, pendingLockObl{li.TypeName + "." + li.Mutex, o})
+			return
+		}
+	}
 }
